@@ -74,13 +74,15 @@ def _normalize_parsed_items(
 
     for measure in list_items:
         # list version is the only element without obis code
-        element_name = (
-            obis_map.obis_name_map[Obis.from_string(measure.obis).to_group_cdr_str()]
-            if measure.obis
-            else obis_map.FIELD_OBIS_LIST_VER_ID
-        )
+        if measure.obis:
+            obis_group_cdr = Obis.from_string(measure.obis).to_group_cdr_str()
+            element_name = obis_map.obis_name_map.get(obis_group_cdr, obis_group_cdr)
+        else:
+            element_name = obis_map.FIELD_OBIS_LIST_VER_ID
 
         if element_name == obis_map.FIELD_METER_DATETIME:
+            if not hasattr(measure.value, "datetime"):
+                raise ValueError(f"Unexpected value for {element_name}: {measure.value}")
             dictionary[element_name] = measure.value.datetime
         else:
             if isinstance(measure.value, int):
@@ -104,7 +106,8 @@ def normalize_parsed_frame(
 ) -> dict[str, str | int | float | datetime]:
     """Convert data from meters construct structure to a dictionary with common key names."""
     dictionary = _normalize_parsed_items(frame.information.notification_body.list_items)
-    dictionary[obis_map.FIELD_METER_DATETIME] = frame.information.DateTime.datetime
+    if hasattr(frame.information.DateTime, "datetime"):
+        dictionary[obis_map.FIELD_METER_DATETIME] = frame.information.DateTime.datetime
     return dictionary
 
 
